@@ -452,6 +452,27 @@ theorem C10_after_stops_inactive (o : Bool) (s : St) (h : ReachE o s) (hd : s.st
       have := (h11 hrv).2
       simp [hpp] at this
 
+/-- **C10_rpc_restart_after_stops**: at the RPC layer a Stop request is the source's Stop followed by the refresh of
+`isSourceActive`.  Once the Stops have returned (`C10_after_stops_inactive`) that refresh clears the flag, whether
+the source was stopped by the request or had ended by itself before: the next Start request is not refused by the
+RPC layer (`scStartRefused` is disabled) and the source accepts it (`C10_restart`). -/
+theorem C10_rpc_restart_after_stops (o : Bool) (s s' : St) (h : ReachE o s) (hd : s.stopsDone > 0)
+    (hk : stoppers s = 0) (hr : step s .flagRefresh = some s') :
+    s'.flag = false ∧ step s' .scStartRefused = none ∧ s'.st = .inactive ∧ s'.sEnter = 0 := by
+  have hst := C10_after_stops_inactive o s h hd hk
+  have hcr := C10_no_crash_partial o s h
+  have hkd : s.kDecided = 0 := by simp only [stoppers] at hk; omega
+  have hse : s.sEnter = 0 := by
+    have := hst.2.1
+    simp only [starters] at this
+    omega
+  unfold step at hr
+  simp only [hcr, hkd] at hr
+  simp only [Bool.false_eq_true, if_false, if_true, Option.some.injEq] at hr
+  subst hr
+  refine ⟨by simp [hst.1], ?_, hst.1, hse⟩
+  simp [step, hst.1]
+
 /-! ### Failed Start, restart -/
 
 /-- a complete successful Start from a state in which the source is Inactive -/
